@@ -3,39 +3,40 @@ The stream contract, for every operator of every plan of natively supported, wel
 expressions (C18): by induction over the typing derivation.
 -/
 import PromqlVerif.Proofs.Contract
+import PromqlVerif.Proofs.LabelsWf
 namespace PromqlVerif
 open Val
 
 variable {V : Type} [Val V]
 
 /-- well-typed expressions over the natively supported constructs, indexed by "is scalar-typed" -/
-inductive WT : Bool → Expr V → Prop
-  | num (v : V) : WT true (.num v)
-  | time : WT true (.call "time" [])
-  | pi : WT true (.call "pi" [])
-  | vsel (s : VSel) : WT false (.vsel s)
+inductive WT (P : Matching → Prop) : Bool → Expr V → Prop
+  | num (v : V) : WT P true (.num v)
+  | time : WT P true (.call "time" [])
+  | pi : WT P true (.call "pi" [])
+  | vsel (s : VSel) : WT P false (.vsel s)
   | rangefn (fn : String) (s : VSel) (r : Int)
-      (h : (engineFuncs.contains fn && rangeFnNames.contains fn) = true) : WT false (.call fn [.msel s r])
-  | neg (b : Bool) (a : Expr V) : WT b a → WT b (.neg a)
-  | pos (b : Bool) (a : Expr V) : WT b a → WT b (.pos a)
-  | paren (b : Bool) (a : Expr V) : WT b a → WT b (.paren a)
-  | stepInvNum (v : V) : WT true (.stepInv (.num v))
-  | stepInv (b : Bool) (a : Expr V) (hn : ∀ v, a ≠ .num v) : WT b a → WT b (.stepInv a)
-  | simple (fn : String) (a : Expr V) (h : simpleFns.contains fn = true) : WT false a → WT false (.call fn [a])
-  | timestamp (a : Expr V) : WT false a → WT false (.call "timestamp" [a])
-  | scalar (a : Expr V) : WT false a → WT true (.call "scalar" [a])
-  | vector (a : Expr V) : WT true a → WT false (.call "vector" [a])
-  | clampMin (a lo : Expr V) : WT false a → WT true lo → WT false (.call "clamp_min" [a, lo])
-  | clampMax (a hi : Expr V) : WT false a → WT true hi → WT false (.call "clamp_max" [a, hi])
-  | clamp (a lo hi : Expr V) : WT false a → WT true lo → WT true hi → WT false (.call "clamp" [a, lo, hi])
-  | hist (q a : Expr V) : WT true q → WT false a → WT false (.call "histogram_quantile" [q, a])
-  | agg (op : String) (w : Bool) (g : List String) (a : Expr V) : WT false a → WT false (.agg op w g a)
-  | aggP (op : String) (w : Bool) (g : List String) (p a : Expr V) : WT true p → WT false a →
-      WT false (.aggP op w g p a)
-  | bin (op : String) (bl : Bool) (m : Matching) (b1 b2 : Bool) (l r : Expr V) : WT b1 l → WT b2 r →
-      WT (b1 && b2) (.bin op bl m l r)
+      (h : (engineFuncs.contains fn && rangeFnNames.contains fn) = true) : WT P false (.call fn [.msel s r])
+  | neg (b : Bool) (a : Expr V) : WT P b a → WT P b (.neg a)
+  | pos (b : Bool) (a : Expr V) : WT P b a → WT P b (.pos a)
+  | paren (b : Bool) (a : Expr V) : WT P b a → WT P b (.paren a)
+  | stepInvNum (v : V) : WT P true (.stepInv (.num v))
+  | stepInv (b : Bool) (a : Expr V) (hn : ∀ v, a ≠ .num v) : WT P b a → WT P b (.stepInv a)
+  | simple (fn : String) (a : Expr V) (h : simpleFns.contains fn = true) : WT P false a → WT P false (.call fn [a])
+  | timestamp (a : Expr V) : WT P false a → WT P false (.call "timestamp" [a])
+  | scalar (a : Expr V) : WT P false a → WT P true (.call "scalar" [a])
+  | vector (a : Expr V) : WT P true a → WT P false (.call "vector" [a])
+  | clampMin (a lo : Expr V) : WT P false a → WT P true lo → WT P false (.call "clamp_min" [a, lo])
+  | clampMax (a hi : Expr V) : WT P false a → WT P true hi → WT P false (.call "clamp_max" [a, hi])
+  | clamp (a lo hi : Expr V) : WT P false a → WT P true lo → WT P true hi → WT P false (.call "clamp" [a, lo, hi])
+  | hist (q a : Expr V) : WT P true q → WT P false a → WT P false (.call "histogram_quantile" [q, a])
+  | agg (op : String) (w : Bool) (g : List String) (a : Expr V) : WT P false a → WT P false (.agg op w g a)
+  | aggP (op : String) (w : Bool) (g : List String) (p a : Expr V) : WT P true p → WT P false a →
+      WT P false (.aggP op w g p a)
+  | bin (op : String) (bl : Bool) (m : Matching) (b1 b2 : Bool) (l r : Expr V)
+      (hm : b1 = false → b2 = false → P m) : WT P b1 l → WT P b2 r → WT P (b1 && b2) (.bin op bl m l r)
 
-theorem wt_isScalar (b : Bool) (e : Expr V) (h : WT b e) : e.isScalar = b := by
+theorem wt_isScalar {P : Matching → Prop} (b : Bool) (e : Expr V) (h : WT P b e) : e.isScalar = b := by
   induction h with
   | num v => rfl
   | time => rfl
@@ -60,9 +61,9 @@ theorem wt_isScalar (b : Bool) (e : Expr V) (h : WT b e) : e.isScalar = b := by
   | hist q a _ _ _ _ => rfl
   | agg op w g a _ _ => rfl
   | aggP op w g p a _ _ _ _ => rfl
-  | bin op bl m b1 b2 l r _ _ ih1 ih2 => simp [Expr.isScalar, ih1, ih2]
+  | bin op bl m b1 b2 l r _ _ _ ih1 ih2 => simp [Expr.isScalar, ih1, ih2]
 
-theorem wt_not_msel (b : Bool) (a : Expr V) (h : WT b a) : ∀ (s : VSel) (r : Int), a = Expr.msel s r → False := by
+theorem wt_not_msel {P : Matching → Prop} (b : Bool) (a : Expr V) (h : WT P b a) : ∀ (s : VSel) (r : Int), a = Expr.msel s r → False := by
   intro s r he; subst he; cases h
 
 /-- the operator built for the argument of `timestamp()` over a selector honours the contract -/
@@ -93,49 +94,89 @@ theorem tsSel_contract (c : Ctx V) : ∀ (a : Expr V) (o : OpSem V), engTimestam
   | .coalesce _, o, h => by simp [engTimestampSel] at h
   | .remote _ _, o, h => by simp [engTimestampSel] at h
 
-/-- what the induction carries -/
-def PC (b : Bool) (o : OpSem V) : Prop := Contract o ∧ (b = true → o.series.length = 1)
+theorem tsSel_labels (c : Ctx V) (hst : ∀ sr ∈ c.st, Labels.wf sr.labels = true) :
+    ∀ (a : Expr V) (o : OpSem V), engTimestampSel c a = some o → LabelsOk o
+  | .paren e, o, h => by rw [engTimestampSel] at h; exact tsSel_labels c hst e o h
+  | .stepInv e, o, h => by
+    rw [engTimestampSel] at h
+    cases he : engTimestampSel c e with
+    | none => simp [he] at h
+    | some o' =>
+      simp only [he, Option.map_some, Option.some.injEq] at h
+      subst h
+      exact fun ls hl => tsSel_labels c hst e o' he ls hl
+  | .vsel s, o, h => by
+    rw [engTimestampSel] at h
+    cases h
+    exact labelsOk_selector c hst s true
+  | .num _, o, h => by simp [engTimestampSel] at h
+  | .str, o, h => by simp [engTimestampSel] at h
+  | .msel _ _, o, h => by simp [engTimestampSel] at h
+  | .subq _, o, h => by simp [engTimestampSel] at h
+  | .call _ _, o, h => by simp [engTimestampSel] at h
+  | .agg _ _ _ _, o, h => by simp [engTimestampSel] at h
+  | .aggP _ _ _ _ _, o, h => by simp [engTimestampSel] at h
+  | .bin _ _ _ _ _, o, h => by simp [engTimestampSel] at h
+  | .neg _, o, h => by simp [engTimestampSel] at h
+  | .pos _, o, h => by simp [engTimestampSel] at h
+  | .coalesce _, o, h => by simp [engTimestampSel] at h
+  | .remote _ _, o, h => by simp [engTimestampSel] at h
 
-theorem pc_of_eq {b : Bool} {o o' : OpSem V} (h : (Except.ok o' : Except Err (OpSem V)) = .ok o) (hp : PC b o') : PC b o := by
+/-- the hypotheses of the label half: vector-vector operators have no include labels, the stored
+label sets are well-formed -/
+def LHyp (P : Matching → Prop) (c : Ctx V) : Prop :=
+  (∀ m, P m → m.incl = []) ∧ ∀ sr ∈ c.st, Labels.wf sr.labels = true
+
+theorem labelsOk_const (f : Int → V) : LabelsOk (constOp f) := by
+  intro ls h
+  simp only [constOp, List.mem_singleton] at h
+  subst h; rfl
+
+/-- what the induction carries -/
+def PC (P : Matching → Prop) (c : Ctx V) (b : Bool) (o : OpSem V) : Prop :=
+  Contract o ∧ (b = true → o.series.length = 1) ∧ (LHyp P c → LabelsOk o)
+
+theorem pc_of_eq {P : Matching → Prop} {c : Ctx V} {b : Bool} {o o' : OpSem V}
+    (h : (Except.ok o' : Except Err (OpSem V)) = .ok o) (hp : PC P c b o') : PC P c b o := by
   cases h; exact hp
 
 /-- **C18, for every plan**: every operator built for a well-typed expression of natively supported
 constructs - and hence every operator of its plan, since every sub-expression is one - emits, at
 every step, sample IDs that index its series list and are pairwise distinct; a scalar-typed
 operator has exactly one series. For every storage, window, lookback and matcher table. -/
-theorem plan_contract (c : Ctx V) (b : Bool) (e : Expr V) (h : WT b e) :
-    ∀ o, engOp c e = .ok o → PC b o := by
+theorem plan_contract {P : Matching → Prop} (c : Ctx V) (b : Bool) (e : Expr V) (h : WT P b e) :
+    ∀ o, engOp c e = .ok o → PC P c b o := by
   induction h with
   | num v =>
     intro o ho; rw [engOp] at ho
-    exact pc_of_eq ho ⟨contract_const _, fun _ => rfl⟩
+    exact pc_of_eq ho ⟨contract_const _, fun _ => rfl, fun _ => labelsOk_const _⟩
   | time =>
     intro o ho; rw [engOp] at ho
-    exact pc_of_eq ho ⟨contract_const _, fun _ => rfl⟩
+    exact pc_of_eq ho ⟨contract_const _, fun _ => rfl, fun _ => labelsOk_const _⟩
   | pi =>
     intro o ho; rw [engOp] at ho
-    exact pc_of_eq ho ⟨contract_const _, fun _ => rfl⟩
+    exact pc_of_eq ho ⟨contract_const _, fun _ => rfl, fun _ => labelsOk_const _⟩
   | vsel s =>
     intro o ho; rw [engOp] at ho
-    exact pc_of_eq ho ⟨contract_selector c s false, fun hb => by cases hb⟩
+    exact pc_of_eq ho ⟨contract_selector c s false, fun hb => (by cases hb), fun hy => labelsOk_selector c hy.2 s false⟩
   | rangefn fn s r hfn =>
     intro o ho; rw [engOp] at ho
     rw [if_pos hfn] at ho
-    exact pc_of_eq ho ⟨contract_rangefn c fn s r, fun hb => by cases hb⟩
+    exact pc_of_eq ho ⟨contract_rangefn c fn s r, fun hb => (by cases hb), fun hy => labelsOk_rangefn c hy.2 fn s r⟩
   | neg b a _ ih =>
     intro o ho; rw [engOp] at ho
     cases ha : engOp c a with
     | error er => simp [ha, bind, Except.bind] at ho
     | ok oa =>
       simp only [ha, bind, Except.bind, pure, Except.pure] at ho
-      obtain ⟨h1, h2⟩ := ih oa ha
-      refine pc_of_eq ho ⟨contract_pointwise oa Labels.dropName (fun _ x => neg x.2) h1, fun hb => ?_⟩
+      obtain ⟨h1, h2, h3⟩ := ih oa ha
+      refine pc_of_eq ho ⟨contract_pointwise oa Labels.dropName (fun _ x => neg x.2) h1, fun hb => ?_, fun hy => labelsOk_map _ Labels.dropName _ (fun ls h => dropName_wf ls h) (h3 hy)⟩
       simp only [List.length_map]; exact h2 hb
   | pos b a _ ih => intro o ho; rw [engOp] at ho; exact ih o ho
   | paren b a _ ih => intro o ho; rw [engOp] at ho; exact ih o ho
   | stepInvNum v =>
     intro o ho; rw [engOp] at ho
-    exact pc_of_eq ho ⟨contract_const _, fun _ => rfl⟩
+    exact pc_of_eq ho ⟨contract_const _, fun _ => rfl, fun _ => labelsOk_const _⟩
   | stepInv b a hn _ ih =>
     intro o ho
     rw [engOp] at ho
@@ -143,8 +184,8 @@ theorem plan_contract (c : Ctx V) (b : Bool) (e : Expr V) (h : WT b e) :
       | error er => simp [ha, bind, Except.bind] at ho
       | ok oa =>
         simp only [ha, bind, Except.bind, pure, Except.pure] at ho
-        obtain ⟨h1, h2⟩ := ih oa ha
-        exact pc_of_eq ho ⟨contract_pin oa c.start h1, h2⟩
+        obtain ⟨h1, h2, h3⟩ := ih oa ha
+        exact pc_of_eq ho ⟨contract_pin oa c.start h1, h2, fun hy ls hl => h3 hy ls hl⟩
     · intro v hv; exact hn v hv
   | simple fn a hfn hfa ih =>
     intro o ho
@@ -158,8 +199,8 @@ theorem plan_contract (c : Ctx V) (b : Bool) (e : Expr V) (h : WT b e) :
     | error er => simp only [ha, bind, Except.bind] at ho; split at ho <;> cases ho
     | ok oa =>
       simp only [ha, hfn, if_true, bind, Except.bind, pure, Except.pure] at ho
-      obtain ⟨h1, _⟩ := ih oa ha
-      exact pc_of_eq ho ⟨contract_pointwise oa Labels.dropName (fun _ x => applySimple fn x.2) h1, fun hb => by cases hb⟩
+      obtain ⟨h1, _, h3⟩ := ih oa ha
+      exact pc_of_eq ho ⟨contract_pointwise oa Labels.dropName (fun _ x => applySimple fn x.2) h1, fun hb => (by cases hb), fun hy => labelsOk_map _ Labels.dropName _ (fun ls h => dropName_wf ls h) (h3 hy)⟩
   | timestamp a hfa ih =>
     intro o ho
     have hne := wt_not_msel _ _ hfa
@@ -167,15 +208,16 @@ theorem plan_contract (c : Ctx V) (b : Bool) (e : Expr V) (h : WT b e) :
     cases hts : engTimestampSel c a with
     | some o' =>
       simp only [hts] at ho
-      exact pc_of_eq ho ⟨contract_relabel o' Labels.dropName (tsSel_contract c a o' hts), fun hb => by cases hb⟩
+      exact pc_of_eq ho ⟨contract_relabel o' Labels.dropName (tsSel_contract c a o' hts), fun hb => (by cases hb),
+        fun hy => labelsOk_map _ Labels.dropName _ (fun ls h => dropName_wf ls h) (tsSel_labels c hy.2 a o' hts)⟩
     | none =>
       simp only [hts] at ho
       cases ha : engOp c a with
       | error er => simp [ha, bind, Except.bind] at ho
       | ok oa =>
         simp only [ha, bind, Except.bind, pure, Except.pure] at ho
-        obtain ⟨h1, _⟩ := ih oa ha
-        exact pc_of_eq ho ⟨contract_pointwise oa Labels.dropName (fun t _ => div (ofInt t) (ofInt 1000)) h1, fun hb => by cases hb⟩
+        obtain ⟨h1, _, h3⟩ := ih oa ha
+        exact pc_of_eq ho ⟨contract_pointwise oa Labels.dropName (fun t _ => div (ofInt t) (ofInt 1000)) h1, fun hb => (by cases hb), fun hy => labelsOk_map _ Labels.dropName _ (fun ls h => dropName_wf ls h) (h3 hy)⟩
   | scalar a hfa ih =>
     intro o ho
     have hne := wt_not_msel _ _ hfa
@@ -184,7 +226,7 @@ theorem plan_contract (c : Ctx V) (b : Bool) (e : Expr V) (h : WT b e) :
     | error er => simp [ha, bind, Except.bind] at ho
     | ok oa =>
       simp only [ha, bind, Except.bind, pure, Except.pure] at ho
-      refine pc_of_eq ho ⟨?_, fun _ => rfl⟩
+      refine pc_of_eq ho ⟨?_, fun _ => rfl, fun _ => labelsOk_unit _⟩
       intro t xs hx
       simp only at hx
       cases hs : oa.step t with
@@ -201,8 +243,8 @@ theorem plan_contract (c : Ctx V) (b : Bool) (e : Expr V) (h : WT b e) :
     | error er => simp [ha, bind, Except.bind] at ho
     | ok oa =>
       simp only [ha, bind, Except.bind, pure, Except.pure] at ho
-      obtain ⟨h1, h2⟩ := ih oa ha
-      refine pc_of_eq ho ⟨?_, fun hb => by cases hb⟩
+      obtain ⟨h1, h2, _⟩ := ih oa ha
+      refine pc_of_eq ho ⟨?_, fun hb => (by cases hb), fun _ => labelsOk_unit _⟩
       intro t xs hx
       have := h1 t xs hx
       rw [h2 rfl] at this
@@ -217,8 +259,8 @@ theorem plan_contract (c : Ctx V) (b : Bool) (e : Expr V) (h : WT b e) :
       | error er => simp [ha, hl, bind, Except.bind] at ho
       | ok ol =>
         simp only [ha, hl, bind, Except.bind, pure, Except.pure] at ho
-        obtain ⟨h1, _⟩ := iha oa ha
-        refine pc_of_eq ho ⟨?_, fun hb => by cases hb⟩
+        obtain ⟨h1, _, h3⟩ := iha oa ha
+        refine pc_of_eq ho ⟨?_, fun hb => (by cases hb), fun hy => labelsOk_map _ Labels.dropName _ (fun ls h => dropName_wf ls h) (h3 hy)⟩
         intro t xs hx
         simp only [List.length_map] at hx ⊢
         cases hs : oa.step t with
@@ -240,8 +282,8 @@ theorem plan_contract (c : Ctx V) (b : Bool) (e : Expr V) (h : WT b e) :
       | error er => simp [ha, hl, bind, Except.bind] at ho
       | ok ol =>
         simp only [ha, hl, bind, Except.bind, pure, Except.pure] at ho
-        obtain ⟨h1, _⟩ := iha oa ha
-        refine pc_of_eq ho ⟨?_, fun hb => by cases hb⟩
+        obtain ⟨h1, _, h3⟩ := iha oa ha
+        refine pc_of_eq ho ⟨?_, fun hb => (by cases hb), fun hy => labelsOk_map _ Labels.dropName _ (fun ls h => dropName_wf ls h) (h3 hy)⟩
         intro t xs hx
         simp only [List.length_map] at hx ⊢
         cases hs : oa.step t with
@@ -266,8 +308,8 @@ theorem plan_contract (c : Ctx V) (b : Bool) (e : Expr V) (h : WT b e) :
         | error er => simp [ha, hl, hh, bind, Except.bind] at ho
         | ok oh =>
           simp only [ha, hl, hh, bind, Except.bind, pure, Except.pure] at ho
-          obtain ⟨h1, _⟩ := iha oa ha
-          refine pc_of_eq ho ⟨?_, fun hb => by cases hb⟩
+          obtain ⟨h1, _, h3⟩ := iha oa ha
+          refine pc_of_eq ho ⟨?_, fun hb => (by cases hb), fun hy => labelsOk_map _ Labels.dropName _ (fun ls h => dropName_wf ls h) (h3 hy)⟩
           intro t xs hx
           simp only [List.length_map] at hx ⊢
           cases hs : oa.step t with
@@ -293,7 +335,7 @@ theorem plan_contract (c : Ctx V) (b : Bool) (e : Expr V) (h : WT b e) :
       | error er => simp [hq, ha, bind, Except.bind] at ho
       | ok oa =>
         simp only [hq, ha, bind, Except.bind, pure, Except.pure] at ho
-        exact pc_of_eq ho ⟨contract_histogram c oq oa, fun hb => by cases hb⟩
+        exact pc_of_eq ho ⟨contract_histogram c oq oa, fun hb => (by cases hb), fun hy => labelsOk_histogram c oq oa ((iha oa ha).2.2 hy)⟩
   | agg op w g a _ ih =>
     intro o ho
     rw [engOp] at ho
@@ -305,7 +347,7 @@ theorem plan_contract (c : Ctx V) (b : Bool) (e : Expr V) (h : WT b e) :
       · cases ho
       · split at ho
         · cases ho
-        · exact pc_of_eq ho ⟨contract_aggregate op w g none oa, fun hb => by cases hb⟩
+        · exact pc_of_eq ho ⟨contract_aggregate op w g none oa, fun hb => (by cases hb), fun hy => labelsOk_aggregate op w g none oa ((ih oa ha).2.2 hy)⟩
   | aggP op w g p a _ _ ihp iha =>
     intro o ho
     rw [engOp] at ho
@@ -317,11 +359,11 @@ theorem plan_contract (c : Ctx V) (b : Bool) (e : Expr V) (h : WT b e) :
       | ok op' =>
         simp only [ha, hp, bind, Except.bind, pure, Except.pure] at ho
         split at ho
-        · exact pc_of_eq ho ⟨contract_kaggregate _ w g op' oa (iha oa ha).1, fun hb => by cases hb⟩
+        · exact pc_of_eq ho ⟨contract_kaggregate _ w g op' oa (iha oa ha).1, fun hb => (by cases hb), fun hy => labelsOk_kaggregate _ w g op' oa ((iha oa ha).2.2 hy)⟩
         · split at ho
           · cases ho
-          · exact pc_of_eq ho ⟨contract_aggregate op w g (some op') oa, fun hb => by cases hb⟩
-  | bin op bl m b1 b2 l r hl hr ihl ihr =>
+          · exact pc_of_eq ho ⟨contract_aggregate op w g (some op') oa, fun hb => (by cases hb), fun hy => labelsOk_aggregate op w g (some op') oa ((iha oa ha).2.2 hy)⟩
+  | bin op bl m b1 b2 l r hm hl hr ihl ihr =>
     intro o ho
     rw [engOp] at ho
     have tl := wt_isScalar _ _ hl
@@ -332,8 +374,11 @@ theorem plan_contract (c : Ctx V) (b : Bool) (e : Expr V) (h : WT b e) :
       cases hro : engOp c r with
       | error er => simp [hlo, hro, bind, Except.bind] at ho
       | ok ro =>
-        obtain ⟨cl, sl⟩ := ihl lo hlo
-        obtain ⟨cr, sr⟩ := ihr ro hro
+        obtain ⟨cl, sl, ll⟩ := ihl lo hlo
+        obtain ⟨cr, sr, lr⟩ := ihr ro hro
+        have relab : ∀ (next : OpSem V) (step : Int → Except Err (IdVec V)), LabelsOk next →
+            LabelsOk { series := next.series.map fun ls => if dropsName op || bl then ls.dropName else ls, step := step } :=
+          fun next step hn => labelsOk_map next _ step (fun ls h => by split; exact dropName_wf ls h; exact h) hn
         by_cases hop : engineBinOps.contains op = true
         · -- a scalar operand: samples of the other side are mapped or filtered in place
           have scal : ∀ (next : OpSem V) (f : Labels → Labels) (stepF : Int → Except Err (IdVec V)),
@@ -350,7 +395,15 @@ theorem plan_contract (c : Ctx V) (b : Bool) (e : Expr V) (h : WT b e) :
           · -- two vectors: the static join and the per-step table
             simp only [hlo, hro, bind, Except.bind, pure, Except.pure, hop, tl, tr, Bool.not_true,
               Bool.false_eq_true, if_false, Bool.or_self] at ho
-            refine pc_of_eq ho ⟨?_, fun hb => by cases hb⟩
+            refine pc_of_eq ho ⟨?_, fun hb => (by cases hb), fun hy => ?_⟩
+            rotate_left
+            · intro ls hls
+              simp only at hls
+              refine engJoin_outputs_wf m (hy.1 m (hm rfl rfl)) _ _ _ ?_ ls hls
+              intro l0 hl0
+              split at hl0
+              · exact lr hy l0 hl0
+              · exact ll hy l0 hl0
             intro t xs hx
             simp only at hx
             cases ha : lo.step t with
@@ -363,7 +416,7 @@ theorem plan_contract (c : Ctx V) (b : Bool) (e : Expr V) (h : WT b e) :
                 exact contract_vbinop op bl m.card _ (engJoin_ok _ _ _ _) as bs xs (cr t bs hb').2 hx
           · simp only [hlo, hro, bind, Except.bind, pure, Except.pure, hop, tl, tr, Bool.not_true,
               Bool.false_eq_true, if_false, Bool.false_or, if_true, Bool.false_and, Bool.and_false] at ho
-            refine pc_of_eq ho ⟨scal lo _ _ cl ?_, fun hb => by cases hb⟩
+            refine pc_of_eq ho ⟨scal lo _ _ cl ?_, fun hb => (by cases hb), fun hy => relab lo _ (ll hy)⟩
             intro t xs hx
             try simp only at hx
             cases hs : lo.step t with
@@ -381,7 +434,7 @@ theorem plan_contract (c : Ctx V) (b : Bool) (e : Expr V) (h : WT b e) :
           · simp only [hlo, hro, bind, Except.bind, pure, Except.pure, hop, tl, tr, Bool.not_true,
               Bool.false_eq_true, if_false, Bool.true_or, Bool.or_false, if_true, Bool.true_and, Bool.and_false,
               Bool.not_false, Bool.and_true] at ho
-            refine pc_of_eq ho ⟨scal ro _ _ cr ?_, fun hb => by cases hb⟩
+            refine pc_of_eq ho ⟨scal ro _ _ cr ?_, fun hb => (by cases hb), fun hy => relab ro _ (lr hy)⟩
             intro t xs hx
             try simp only at hx
             cases hs : ro.step t with
@@ -399,7 +452,7 @@ theorem plan_contract (c : Ctx V) (b : Bool) (e : Expr V) (h : WT b e) :
           · simp only [hlo, hro, bind, Except.bind, pure, Except.pure, hop, tl, tr, Bool.not_true,
               Bool.false_eq_true, if_false, Bool.true_or, Bool.or_true, if_true, Bool.true_and, Bool.and_true,
               Bool.and_false] at ho
-            refine pc_of_eq ho ⟨scal lo _ _ cl ?_, fun _ => by simpa using sl rfl⟩
+            refine pc_of_eq ho ⟨scal lo _ _ cl ?_, fun _ => (by simpa using sl rfl), fun hy => relab lo _ (ll hy)⟩
             intro t xs hx
             try simp only at hx
             cases hs : lo.step t with
